@@ -343,6 +343,73 @@ func c12Session(ctx *core.Ctx, res *core.Result, s *Sess, c *CConn, msize uint32
 	}
 	// framework errors
 	check("fwerror", &wire.Msg{Type: wire.Tstat, Fid: 4242}, nil, "unknownfid")
+	// more requests in flight at once than reply buffers were recycled so far (each of them gets a buffer of its own),
+	// with answers that only the buffer bounds: stat records around and above msize, walks of 16 elements
+	for burst := 0; burst < 2; burst++ {
+		gate := make(chan struct{})
+		var ms []*wire.Msg
+		var entered []chan struct{}
+		for i := 0; i < 12; i++ {
+			tag++
+			p := script.NewPlan()
+			p.Gate = gate
+			p.Entered = make(chan struct{})
+			var m *wire.Msg
+			if i%3 == 2 {
+				names := make([]string, 16)
+				for k := range names {
+					names[k] = "d"
+				}
+				m = &wire.Msg{Type: wire.Twalk, Tag: tag, Fid: 1, Newfid: uint32(500 + 20*burst + i), Wname: names}
+			} else {
+				n := int(msize) - 40 + 25*i
+				if n < 0 {
+					n = i
+				}
+				if n > 60000 {
+					n = 60000
+				}
+				p.Text = strings.Repeat("n", n)
+				m = &wire.Msg{Type: wire.Tstat, Tag: tag, Fid: 1}
+			}
+			if uint32(len(wire.Encode(m, dotu))) > msize {
+				continue
+			}
+			s.Ops.SetPlan(c.ID, m.Tag, p)
+			ms = append(ms, m)
+			entered = append(entered, p.Entered)
+		}
+		_ = c.Send(ms...)
+		for _, e := range entered {
+			select {
+			case <-e:
+			case <-time.After(W):
+			}
+		}
+		close(gate)
+		for _, m := range ms {
+			rep, err := c.WaitTag(m.Tag, W)
+			res.Count("negotiated_replies_checked", 1)
+			d := map[string]interface{}{"negotiation": det, "request": m.String(), "kind": "concurrent-burst"}
+			if err != nil || rep == nil {
+				res.Violate("C12;no-reply;burst", fmt.Sprintf("%s (one of %d concurrent requests) got no reply", m.String(), len(ms)), d)
+				break
+			}
+			if len(rep.Raw) > int(msize) {
+				res.Violate("C12;oversize-frame;burst;"+wire.TypeName(rep.Raw[4]), fmt.Sprintf("reply frame of %d bytes exceeds the negotiated msize %d (one of %d requests in flight together)", len(rep.Raw), msize, len(ms)), d)
+			}
+			if rep.Msg == nil {
+				res.Violate("C12;wrong-dialect;burst", fmt.Sprintf("reply does not decode in the negotiated dialect: %v", rep.Err), d)
+			}
+		}
+		for _, m := range ms {
+			if m.Type == wire.Twalk {
+				tag++
+				c.Rpc(&wire.Msg{Type: wire.Tclunk, Tag: tag, Fid: m.Newfid}, W)
+			}
+		}
+		res.Sig(fmt.Sprintf("burst|%d|%v|%d", msize, dotu, len(ms)))
+	}
 }
 
 // c12BadSizes: a frame announcing a size above msize or below a header drops the connection.
